@@ -63,7 +63,21 @@ func mkKeys(n int, salt uint64) []key {
 
 func coins(n int64) sdk.Coins { return sdk.NewCoins(sdk.NewCoin(sdk.DefaultStakeDenom, sdk.NewInt(n))) }
 
+// one recorded ABCI-level request of a history, for replay on other instances (C01)
+type request struct {
+	kind  string // INIT BB AW BU TX EB CM
+	bb    abci.RequestBeginBlock
+	tx    []byte
+	addr  sdk.Address
+	amt   int64
+	sev   sdk.Dec
+	hdr   abci.Header
+	resA  string // consensus-relevant response of instance A
+}
+
 type hist struct {
+	reqs   []request
+	gen    *simapp.Genesis
 	r      *rng.R
 	id     int
 	idx    int
@@ -518,7 +532,9 @@ func main() {
 	fo, _ := os.Create(*out + "/app.ops")
 	fi, _ := os.Create(*out + "/app.impl")
 	wo, wi := bufio.NewWriter(fo), bufio.NewWriter(fi)
-	defer func() { wo.Flush(); wi.Flush(); fo.Close(); fi.Close() }()
+	fd, _ := os.Create(*out + "/app.det")
+	det = bufio.NewWriter(fd)
+	defer func() { wo.Flush(); wi.Flush(); det.Flush(); fo.Close(); fi.Close(); fd.Close() }()
 	for i := 0; i < *n; i++ {
 		runHistory(r, i, *blocks, wo, wi)
 	}
@@ -654,12 +670,14 @@ func runHistory(r *rng.R, id, maxBlocks int, wo, wi *bufio.Writer) {
 	h.app = simapp.New(dbm.NewMemDB(), "tcp://127.0.0.1:1", gen)
 	h.now = time.Unix(1600000000, int64(r.Intn(1000000000))).UTC()
 	var initRes abci.ResponseInitChain
-	if try(func() { initRes = h.app.InitChain(abci.RequestInitChain{ChainId: simapp.ChainID, Time: h.now}) }) {
+	if try(func() { initRes = h.app.InitChain(abci.RequestInitChain{ChainId: simapp.ChainID, Time: time.Unix(1600000000, 0).UTC()}) }) {
 		h.emitDead("INIT")
 		fmt.Fprintln(wo, "E")
 		return
 	}
 	h.applyUpdates(initRes.Validators)
+	h.gen = gen
+	h.reqs = append(h.reqs, request{kind: "INIT", resA: updatesString(initRes.Validators)})
 	h.emit("INIT", updatesString(initRes.Validators))
 	h.sets = map[int64]map[string]int64{1: copySet(h.tm), 2: copySet(h.tm)}
 	paramPool := []paramChoice{
@@ -761,12 +779,14 @@ func runHistory(r *rng.R, id, maxBlocks int, wo, wi *bufio.Writer) {
 		}
 		hdr := abci.Header{ChainID: simapp.ChainID, Height: h.height, Time: h.now, ProposerAddress: prop}
 		op := fmt.Sprintf("BB %d %d %s votes=%s ev=%s", h.height, h.now.UnixNano(), hx(prop), strings.Join(vparts, ","), strings.Join(eparts, ","))
-		if try(func() {
-			h.app.BeginBlock(abci.RequestBeginBlock{Header: hdr, LastCommitInfo: abci.LastCommitInfo{Votes: votes}, ByzantineValidators: evs})
-		}) {
+		bbReq := abci.RequestBeginBlock{Header: hdr, LastCommitInfo: abci.LastCommitInfo{Votes: votes}, ByzantineValidators: evs}
+		var bbRes abci.ResponseBeginBlock
+		if try(func() { bbRes = h.app.BeginBlock(bbReq) }) {
+			h.reqs = append(h.reqs, request{kind: "BB", bb: bbReq, hdr: hdr, resA: "ABORT"})
 			h.emitDead(op)
 			break
 		}
+		h.reqs = append(h.reqs, request{kind: "BB", bb: bbReq, hdr: hdr, resA: eventsString(bbRes.Events)})
 		h.emit(op, "ok")
 		// ---- keeper entry points used by other modules
 		// other modules call these keeper entry points from their handlers, which run on the root store
@@ -778,6 +798,7 @@ func runHistory(r *rng.R, id, maxBlocks int, wo, wi *bufio.Writer) {
 				amt = 0
 			}
 			h.app.PK.AwardCoinsTo(ctx, sdk.NewInt(amt), k.addr)
+			h.reqs = append(h.reqs, request{kind: "AW", addr: k.addr, amt: amt, hdr: hdr, resA: "ok"})
 			h.emit(fmt.Sprintf("AW %s %d", hx(k.addr), amt), "ok")
 		}
 		if r.Chance(1, 4) {
@@ -793,8 +814,10 @@ func runHistory(r *rng.R, id, maxBlocks int, wo, wi *bufio.Writer) {
 				sev := fractions[r.Intn(len(fractions))]
 				op := fmt.Sprintf("BU %s %s", hx(k.addr), sev.Int.String())
 				if try(func() { h.app.PK.BurnValidator(ctx, k.addr, sev) }) {
+					h.reqs = append(h.reqs, request{kind: "BU", addr: k.addr, sev: sev, hdr: hdr, resA: "panic"})
 					h.emit(op, "panic")
 				} else {
+					h.reqs = append(h.reqs, request{kind: "BU", addr: k.addr, sev: sev, hdr: hdr, resA: "ok"})
 					h.emit(op, "ok")
 				}
 			}
@@ -809,28 +832,163 @@ func runHistory(r *rng.R, id, maxBlocks int, wo, wi *bufio.Writer) {
 			if res.Code != 0 {
 				rs = "err"
 			}
+			h.reqs = append(h.reqs, request{kind: "TX", tx: bz, resA: deliverString(res)})
 			h.emit(op, rs)
 		}
 		// ---- end block / commit
 		var eb abci.ResponseEndBlock
 		if try(func() { eb = h.app.EndBlock(abci.RequestEndBlock{Height: h.height}) }) {
+			h.reqs = append(h.reqs, request{kind: "EB", amt: h.height, resA: "ABORT"})
 			h.emitDead("EB")
 			break
 		}
+		h.reqs = append(h.reqs, request{kind: "EB", amt: h.height, resA: updatesString(eb.ValidatorUpdates) + eventsString(eb.Events)})
 		// C05: the batch is applied to the set Tendermint currently has for H+1, giving the set of H+2
 		h.applyUpdates(eb.ValidatorUpdates)
 		h.sets[h.height+2] = copySet(h.tm)
 		h.emit("EB", updatesString(eb.ValidatorUpdates))
-		if try(func() { h.app.Commit() }) {
+		var cm abci.ResponseCommit
+		if try(func() { cm = h.app.Commit() }) {
 			h.emitDead("CM")
 			break
 		}
+		h.reqs = append(h.reqs, request{kind: "CM", resA: hx(cm.Data)})
 		committed = true
 		h.emit("CM", "ok")
 	}
 	_ = committed
 	_ = big.NewInt
 	fmt.Fprintln(wo, "E")
+	// ---- C01: the same request sequence on other instances
+	if det != nil {
+		for _, variant := range []string{"fresh", "restart", "interleaved"} {
+			fmt.Fprintf(det, "%d %s %s\n", id, variant, h.replay(variant))
+		}
+	}
+}
+
+var det *bufio.Writer
+
+func eventsString(evs []abci.Event) string {
+	js, _ := json.Marshal(evs)
+	return string(js)
+}
+func deliverString(r abci.ResponseDeliverTx) string {
+	return fmt.Sprintf("code=%d/%s data=%s events=%s", r.Code, r.Codespace, hx(r.Data), eventsString(r.Events))
+}
+
+// replay runs the recorded requests on another instance and reports the first consensus-relevant difference
+func (h *hist) replay(variant string) string {
+	db := dbm.NewMemDB()
+	app := simapp.New(db, "tcp://127.0.0.1:1", h.gen)
+	rr := rng.New(uint64(h.id)*7919 + uint64(len(variant)))
+	restartAt := -1
+	if variant == "restart" {
+		var cms []int
+		for i, q := range h.reqs {
+			if q.kind == "CM" {
+				cms = append(cms, i)
+			}
+		}
+		if len(cms) > 0 {
+			restartAt = cms[rr.Intn(len(cms))]
+		}
+	}
+	var txs [][]byte
+	for _, q := range h.reqs {
+		if q.kind == "TX" {
+			txs = append(txs, q.tx)
+		}
+	}
+	noise := func() {
+		if variant != "interleaved" || !rr.Chance(1, 2) {
+			return
+		}
+		try(func() {
+			switch rr.Intn(4) {
+			case 0:
+				if len(txs) > 0 {
+					app.CheckTx(abci.RequestCheckTx{Tx: txs[rr.Intn(len(txs))]})
+				}
+			case 1:
+				if len(txs) > 0 {
+					app.Query(abci.RequestQuery{Path: "/app/simulate", Data: txs[rr.Intn(len(txs))]})
+				}
+			case 2:
+				app.Query(abci.RequestQuery{Path: "/store/pos/key", Data: []byte{0x01}})
+			default:
+				app.Query(abci.RequestQuery{Path: "/custom/pos/validators", Data: []byte("{}")})
+			}
+		})
+	}
+	for i, q := range h.reqs {
+		noise()
+		got := ""
+		switch q.kind {
+		case "INIT":
+			var res abci.ResponseInitChain
+			if try(func() { res = app.InitChain(abci.RequestInitChain{ChainId: simapp.ChainID, Time: time.Unix(1600000000, 0).UTC()}) }) {
+				got = "ABORT"
+			} else {
+				got = updatesString(res.Validators)
+			}
+		case "BB":
+			var res abci.ResponseBeginBlock
+			if try(func() { res = app.BeginBlock(q.bb) }) {
+				got = "ABORT"
+			} else {
+				got = eventsString(res.Events)
+			}
+		case "AW":
+			ctx := sdk.NewContext(app.Store(), q.hdr, false, log.NewNopLogger())
+			app.PK.AwardCoinsTo(ctx, sdk.NewInt(q.amt), q.addr)
+			got = "ok"
+		case "BU":
+			ctx := sdk.NewContext(app.Store(), q.hdr, false, log.NewNopLogger())
+			if try(func() { app.PK.BurnValidator(ctx, q.addr, q.sev) }) {
+				got = "panic"
+			} else {
+				got = "ok"
+			}
+		case "TX":
+			got = deliverString(app.DeliverTx(abci.RequestDeliverTx{Tx: q.tx}))
+		case "EB":
+			var res abci.ResponseEndBlock
+			if try(func() { res = app.EndBlock(abci.RequestEndBlock{Height: q.amt}) }) {
+				got = "ABORT"
+			} else {
+				got = updatesString(res.ValidatorUpdates) + eventsString(res.Events)
+			}
+		case "CM":
+			var res abci.ResponseCommit
+			if try(func() { res = app.Commit() }) {
+				got = "ABORT"
+			} else {
+				got = hx(res.Data)
+			}
+		}
+		if got != q.resA {
+			a, b := q.resA, got
+			if len(a) > 160 {
+				a = a[:160]
+			}
+			if len(b) > 160 {
+				b = b[:160]
+			}
+			return fmt.Sprintf("DIVERGED op=%d kind=%s A=%s B=%s", i, q.kind, strings.ReplaceAll(a, " ", "_"), strings.ReplaceAll(b, " ", "_"))
+		}
+		if got == "ABORT" {
+			break
+		}
+		if i == restartAt {
+			// stop after this Commit and reopen from the database
+			app = simapp.New(db, "tcp://127.0.0.1:1", h.gen)
+			if app.LastBlockHeight() == 0 {
+				return fmt.Sprintf("DIVERGED op=%d kind=restart reopened at height 0", i)
+			}
+		}
+	}
+	return "same"
 }
 
 func copySet(m map[string]int64) map[string]int64 {
